@@ -4,11 +4,13 @@ CONSTANTS
   N = 4
   Byz <- NoByz
   Nodes <- Obs1
-  Blk0 <- T4s
+  Blk0s <- ST4s
   MaxBlocks = 10
   MaxRestarts = 0
   ByzMode = "branch"
   ByzRanges <- R123
+  Runs = FALSE
+  BadKinds <- OnlyOk
   Fixes <- NoFix
 VIEW view
 INVARIANTS LibOnMain
